@@ -11,6 +11,8 @@ type Pool struct {
 	ctx    context.Context
 	cancel context.CancelFunc
 
+	// lifeM serialises Run and Stop: runM only says whether the pool is running.
+	lifeM     sync.Mutex
 	runM      sync.Mutex
 	lazySendM sync.Mutex
 	listM     sync.Mutex
